@@ -496,7 +496,7 @@ func checkC03(c *Ctx) {
 		laOrder(c2, "LA-order")
 		laMaxLevels(c2, "LA-maxlevels")
 		// what the shredder returned is what the column keeps (values, definition and repetition levels)
-		runFT(c2, "FT", map[string]bool{"delta": true})
+		runFT(c2, "FT", map[string]bool{"delta": true, "count": true})
 	})
 	r.assume("RepetitionTypes.MaxDef/MaxRep at run time and the RLE bytes (C07) are not decided here")
 }
